@@ -16,7 +16,7 @@ of a binary operator and for the new elements of ^= the reference *adopts* the
 order the real set shows, after checking the content as a mathematical set
 and that surviving elements kept their relative order.
 '''
-from sim.engine import Engine, Log, Violation
+from sim.engine import Engine, Log, Violation, stable_hash
 from sim.meter import SimStall, WallGuard
 from sim.rng import Streams, weighted
 
@@ -573,7 +573,7 @@ class OsetEngine(Engine):
                 log.event(step, op.get('a'), kind, outcome, [render(r) for r in ref])
                 sig = tuple(tuple(uidx(x) for x in r) for r in ref)
                 if any(len(r) >= 2 for r in ref):
-                    states.add(hash(sig) & 0xffffffffffff)
+                    states.add(stable_hash(sig))
             violation = None
         except Violation as v:
             violation = v.as_dict(step)
